@@ -1,6 +1,6 @@
 (* C02 - perfect reconstruction (line level).  Statements only. *)
 From Coq Require Import String.
-From PW Require Import Base.Ops Base.Sum Base.Sig Base.Tensor Model.Dwt Spec.Line Proofs.DwtNF Proofs.LineTheory Proofs.C01Proofs Proofs.C02Proofs Proofs.PywtProofs Gen.PywtTables.
+From PW Require Import Base.Ops Base.Sum Base.Sig Base.Tensor Model.Dwt Spec.Line Proofs.DwtNF Proofs.LineTheory Proofs.C01Proofs Proofs.C02Proofs Proofs.CircPR Proofs.C02ProofsPer Proofs.PywtProofs Gen.PywtTables.
 
 (* master identity: synthesis (window [ka,kb)) of the analysis of ANY signal on the line = the signal filtered by the
    kernel Pk built from the four filters; no hypothesis on the filters *)
@@ -53,6 +53,48 @@ Theorem C02_multilevel_1d :
       forall nn c i j, 0 <= c < tC x -> 0 <= i < tH x -> 0 <= j < tW x -> tf y nn c i j = tf x nn c i j)).
 Proof. intros R Op Rth J. exact (pr_multilevel_1d Op Rth J). Qed.
 Print Assumptions C02_multilevel_1d.
+
+(* ---- periodization ---- *)
+(* the circular transform reconstructs for EVERY even length N (also below the filter length), under the same kernel condition *)
+Theorem C02_circular_pr :
+  forall (R:Type) (Op:Ops R) (Rth:RingOk Op) (L N:Z) (d0 d1 g0 g1 x:Z->R) i, 2 <= L -> L mod 2 = 0 -> 0 < N -> N mod 2 = 0 ->
+  PRcond Op L d0 d1 g0 g1 -> 0 <= i < N ->
+  syn_per Op L (N/2) g0 g1 (ana_per Op L N (rev_filt L d0) x) (ana_per Op L N (rev_filt L d1) x) i = x i.
+Proof. exact @circ_pr. Qed.
+Print Assumptions C02_circular_pr.
+
+(* on the model of the code: one level (odd widths: extended by the duplicated last sample, output one longer), guard L <= even_len W
+   (below it the code's single fold is not the circular transform: known finding KF-PER-SHORT) *)
+Theorem C02_level_1d_per :
+  forall (R:Type) (Op:Ops R) (Rth:RingOk Op) (x:@ten R) L d0 d1 g0 g1,
+  2 <= L -> L mod 2 = 0 -> L <= even_len (tW x) -> 1 <= tW x -> 1 <= tH x -> 0 < tC x -> PRcond Op L d0 d1 g0 g1 ->
+  is_ok (AFB1D_fwd Op x L (rev_filt L d0) (rev_filt L d1) M_PER) (fun r =>
+    is_ok (SFB1D_fwd Op (fst r) (snd r) L g0 g1 M_PER) (fun y =>
+      tN y = tN x /\ tC y = tC x /\ tH y = tH x /\ tW y = even_len (tW x) /\
+      forall n c i j, 0 <= c < tC x -> 0 <= i < tH x -> 0 <= j < tW x -> tf y n c i j = tf x n c i j)).
+Proof. exact @pr_level_1d_per. Qed.
+Print Assumptions C02_level_1d_per.
+
+(* every J *)
+Theorem C02_multilevel_1d_per :
+  forall (R:Type) (Op:Ops R) (Rth:RingOk Op) (J:nat) (x:@ten R) L d0 d1 g0 g1,
+  2 <= L -> L mod 2 = 0 -> 1 <= tH x -> 0 < tC x -> 1 <= tW x -> levels_ok_per J L (tW x) -> PRcond Op L d0 d1 g0 g1 ->
+  is_ok (DWT1DForward Op J x L (rev_filt L d0) (rev_filt L d1) M_PER) (fun r =>
+    is_ok (DWT1DInverse Op (fst r) (map Some (snd r)) L g0 g1 M_PER) (fun y =>
+      tN y = tN x /\ tC y = tC x /\ tH y = tH x /\ tW x <= tW y <= tW x + 1 /\
+      forall nn c i j, 0 <= c < tC x -> 0 <= i < tH x -> 0 <= j < tW x -> tf y nn c i j = tf x nn c i j)).
+Proof. intros R Op Rth J. exact (pr_multilevel_1d_per Op Rth J). Qed.
+Print Assumptions C02_multilevel_1d_per.
+
+(* non-vacuity of PRcond over Z: the lazy (polyphase-split) bank of length 2, and a 3-level periodization instance of the guard *)
+Example C02_PRcond_lazy :
+  PRcond ZOps 2 (fun m => if m =? 0 then 0 else 1) (fun m => if m =? 0 then 1 else 0) (fun m => if m =? 0 then 1 else 0) (fun m => if m =? 0 then 0 else 1).
+Proof.
+  intros p d Hp Hd. assert (Hp': p = 0 \/ p = 1) by lia. assert (Hd': d = -1 \/ d = 0 \/ d = 1) by lia.
+  destruct Hp' as [->| ->]; destruct Hd' as [->|[->| ->]]; vm_compute; reflexivity.
+Qed.
+Example C02_levels_ok_per_example : levels_ok_per 3 2 13.
+Proof. cbn [levels_ok_per]. unfold even_len. cbn. repeat split; lia. Qed.
 
 (* ---- filter side: all 106 PyWavelets banks (exact dyadic taps regenerated from the installed package) ---- *)
 (* l1 deviation of the reconstruction kernel from the unit impulse <= 2^-34 (dmey: 2^-7), both output parities *)
